@@ -348,6 +348,59 @@ fn rejected_case(idx: u64, rec: &mut Rec) {
     }
 }
 
+/// `Expect: 100-Continue` and other spellings: whether such a request waits for a 100 is not pinned
+/// by the statement (the token is case-insensitive in HTTP, the crate matches it byte-exactly), so
+/// either path through the graph is accepted — but the flow must be usable to completion, never
+/// panic, and deliver the response intact.
+fn expect_spelling_case(idx: u64, seed: u64, rec: &mut Rec) {
+    let mut rng = Rng::derive(seed, "C09/expect-spelling", idx);
+    let spelling: &[u8] = [&b"100-Continue"[..], b"100-CONTINUE", b"100-continuE", b" 100-continue", b"100-continue, x"][(idx % 5) as usize];
+    let method = ["POST", "PUT", "PATCH", "GET"][(idx / 5 % 4) as usize];
+    let server_answers_at_once = (idx / 20) % 2 == 1;
+    let mut cfg = ReqCfg::new(method, "http://h.test/up");
+    if method == "GET" {
+        cfg.despite = true;
+    }
+    if (idx / 40) % 2 == 1 {
+        cfg.ver = if http10_method(method) { Ver::V10 } else { Ver::V11 };
+        cfg.orig.push(("connection".into(), b"close".to_vec()));
+    }
+    let body = crate::wire::payload(rng.usize_in(0, 40), 3);
+    if rng.chance(1, 2) {
+        cfg.orig.push(("content-length".into(), body.len().to_string().into_bytes()));
+    }
+    cfg.orig.push(("Expect".into(), spelling.to_vec()));
+    let status = *rng.pick(&[200u16, 403, 417, 302, 204]);
+    let mut stream = format!("HTTP/1.1 {} X\r\nServer: s\r\n{}Content-Length: {}\r\n\r\n", status, if status == 302 { "Location: /n\r\n" } else { "" }, if status == 204 { 0 } else { 5 }).into_bytes();
+    let head_len = stream.len();
+    if status != 204 {
+        stream.extend_from_slice(b"hello");
+    }
+    let flow = match build_flow(&cfg) {
+        Ok(f) => f,
+        Err(e) => return rec.fail("C09/setup", format!("{:?}", e)),
+    };
+    let scen = if server_answers_at_once { Scen::Decide } else { Scen::GiveUpNoData(1) };
+    let mut d = Driver::new(flow, &cfg, &body, &stream, scen, Sched::random(&mut rng, true));
+    rec.ev(|| format!("{} server_answers_at_once={} status={}", cfg.describe(), server_answers_at_once, status));
+    let end = d.run(rec);
+    let waited = d.path.contains(&"Await100");
+    rec.cov(&format!("expect-spelling/{}/{}", if waited { "awaited-100" } else { "did-not-await" }, if server_answers_at_once { "answered-at-once" } else { "answered-after-body" }));
+    if end != Step::Done {
+        return rec.fail("C09/exchange-did-not-complete", format!("Expect: {:?}: {:?}; {}", crate::json::esc(spelling), end, d.summary()));
+    }
+    let r = match &d.resp {
+        Some(r) => r,
+        None => return rec.fail("C09/no-response", "no response".into()),
+    };
+    if r.status != status || d.consumed != stream.len() || d.consumed < head_len {
+        return rec.fail("C09/response-after-expect-spelling", format!("status {} consumed {} of {}", r.status, d.consumed, stream.len()));
+    }
+    if status != 204 && d.resp_body != b"hello" {
+        return rec.fail("C09/response-after-expect-spelling", format!("body {:?}", crate::json::esc(&d.resp_body)));
+    }
+}
+
 impl Property for P {
     fn id(&self) -> &'static str {
         "C09"
@@ -364,12 +417,16 @@ impl Property for P {
     fn workloads(&self, tier: Tier) -> Vec<Workload> {
         vec![
             Workload::new("histories", tier.pick(6_000, 1_500_000), false, "random exchange histories + advance probes at every step"),
+            Workload::new("expect-spellings", 800, false, "Expect values in other spellings (100-Continue, ...), answered at once or after the body: either path, but usable to completion"),
             Workload::new("request-menu", 5 * 9 * 5 * 10 * 6 * 2 * 3, true, "every request shape of the C17 product (valid and invalid) x 0/1/2 head writes, then an advance attempt"),
         ]
     }
     fn run_case(&self, wl: &str, idx: u64, seed: u64, rec: &mut Rec) {
         if wl == "request-menu" {
             return rejected_case(idx, rec);
+        }
+        if wl == "expect-spellings" {
+            return expect_spelling_case(idx, seed, rec);
         }
         let mut rng = Rng::derive(seed, wl, idx);
         history_case(&mut rng, rec)
@@ -390,6 +447,7 @@ impl Property for P {
         v.push(("edge-config/SendRequest->SendBody/despite-body".into(), 5));
         v.push(("hook:flow:Await100:WithBody".into(), 10));
         v.push(("server/unsolicited-100".into(), 20));
+        v.push(("expect-spelling/*".into(), 500));
         v.push(("rejected-menu/writes=0/refused".into(), 100));
         v.push(("rejected-menu/writes=1/refused".into(), 100));
         v.push(("rejected-menu/writes=1/advanced".into(), 100));
